@@ -1180,6 +1180,29 @@ func parseWalk(text string) (acts []act, q []bool) {
 
 // ---------- churn (stage T)
 
+// quietSnapshot records the registries at a quiescent point - and checks afterwards that the point WAS quiescent:
+// a link that was live when the point was chosen and is closing when the tables have been read (a reader noticed a
+// broken connection in between) makes the record worthless; it is taken again.
+func quietSnapshot(settle func() map[peering.Link]*world.Node, nodes []*world.Node, names map[*world.Node]string, tag string) []any {
+	for try := 0; try < 5; try++ {
+		live := settle()
+		if live == nil {
+			return nil
+		}
+		evs, _ := snapshot(nodes, names, live, tag)
+		still := true
+		for l := range live {
+			if l.IsClosing() {
+				still = false
+			}
+		}
+		if still {
+			return evs
+		}
+	}
+	return nil
+}
+
 func churn(c *vf.Ctx, rng *rand.Rand, n, ops int) (events []any) {
 	s := newSched()
 	s.perturb = rand.New(rand.NewSource(rng.Int63()))
@@ -1203,11 +1226,14 @@ func churn(c *vf.Ctx, rng *rand.Rand, n, ops int) (events []any) {
 		rb   *linkworld.SetupRet
 	}
 	var conns []*pc
+	// closes the driver has started on goroutines of their own and that have not come back yet: no quiescent point
+	// while one of them is under way (under the race detector a goroutine may be late by more than a moment)
+	var asyncCloses atomic.Int32
 	settle := func() map[peering.Link]*world.Node {
 		deadline := time.Now().Add(3 * time.Second)
 		for {
 			live := map[peering.Link]*world.Node{}
-			q := true
+			q := asyncCloses.Load() == 0
 			for _, k := range conns {
 				if k.ra == nil {
 					select {
@@ -1280,7 +1306,9 @@ func churn(c *vf.Ctx, rng *rand.Rand, n, ops int) (events []any) {
 						return
 					}
 					done := make(chan struct{})
+					asyncCloses.Add(1)
 					go func() {
+						defer asyncCloses.Add(-1)
 						defer close(done)
 						if l := x.Peer.GetLink(y.ID.IP); l != nil && fired.CompareAndSwap(false, true) {
 							x.OnRoutingTable.Store(nil)
@@ -1310,7 +1338,8 @@ func churn(c *vf.Ctx, rng *rand.Rand, n, ops int) (events []any) {
 			a.Peer.CloseLink(b.ID.IP)
 		case k < 9: // close the link object
 			if l := a.Peer.GetLink(b.ID.IP); l != nil {
-				go l.Close(nil)
+				asyncCloses.Add(1)
+				go func() { defer asyncCloses.Add(-1); l.Close(nil) }()
 			}
 		default: // break a connection
 			if len(conns) > 0 {
@@ -1318,10 +1347,7 @@ func churn(c *vf.Ctx, rng *rand.Rand, n, ops int) (events []any) {
 			}
 		}
 		if rng.Intn(3) == 0 || op == ops-1 {
-			if live := settle(); live != nil {
-				evs, _ := snapshot(nodes, names, live, fmt.Sprintf("churn of %d routers after %d operations", n, op+1))
-				events = append(events, evs...)
-			}
+			events = append(events, quietSnapshot(settle, nodes, names, fmt.Sprintf("churn of %d routers after %d operations", n, op+1))...)
 		}
 		c.Eval(1)
 	}
@@ -1333,10 +1359,7 @@ func churn(c *vf.Ctx, rng *rand.Rand, n, ops int) (events []any) {
 			go func() { _ = x.Peer.Stop(); close(done) }()
 			conns = append(conns, &pc{pd: linkworld.Start(y, x), a: y, b: x})
 			<-done
-			if live := settle(); live != nil {
-				evs, _ := snapshot(nodes, names, live, fmt.Sprintf("churn of %d routers after stop-all", n))
-				events = append(events, evs...)
-			}
+			events = append(events, quietSnapshot(settle, nodes, names, fmt.Sprintf("churn of %d routers after stop-all", n))...)
 		}
 	}
 	for _, k := range conns {
